@@ -808,7 +808,7 @@ fn impl_parse_json(text: &str) -> Result<Option<String>, String> {
 }
 
 fn fam_jsonparse(ctx: &mut Ctx, r: &mut Rng, depth: usize) {
-    let cfg = DocCfg { keys: KEY_POOL, wide_numbers: false };
+    let cfg = DocCfg { keys: KEY_POOL, wide_numbers: r.chance(50) };
     let (text, is_obj) = match r.below(12) {
         0 => (String::from_utf8_lossy(&junk(r)).to_string(), false),
         1 => {
@@ -1107,7 +1107,7 @@ pub fn check(ctx: &mut Ctx) {
         fam_hazards(ctx);
         fam_depth_limit(ctx);
     }
-    let n = ctx.budget(4800, 160000);
+    let n = ctx.budget(24000, 400000);
     for i in 0..n {
         let mut r = ctx.rng.fork();
         match i % 16 {
